@@ -1055,6 +1055,114 @@ func runFlash(out *vio.Out, le *logrus.Entry) {
 	out.Emit(map[string]any{"e": "flash", "rounds": rounds, "connected": connected, "reported_at_end": len(ctrl.GetPeerLinks(xid)), "closed_still_reported": stale})
 }
 
+// runStorm (experiment for assumption A1 of QuicLinks.tla): the same endpoint (address, identity) reconnects twice in quick succession
+// while the controller's lock is contended; afterwards exactly the second link must be registered and alive.
+func runStorm(out *vio.Out, le *logrus.Entry) {
+	n := &memNet{eps: map[string]*endpoint{}}
+	ctx, cancel := context.WithCancel(context.Background())
+	defer cancel()
+	lk := vio.Key("quicnet/ctl")
+	tb, err := testbed.NewTestbed(ctx, le, testbed.TestbedOpts{PrivKey: lk, NoEcho: true})
+	if err != nil {
+		vio.Fatal("%v", err)
+	}
+	defer tb.Release()
+	localID, _ := peer.IDFromPrivateKey(lk)
+	ep := n.bind("addrCtl")
+	ctor := func(ctx context.Context, le *logrus.Entry, pkey crypto.PrivKey, h transport.TransportHandler) (transport.Transport, error) {
+		t, err := pconn.NewTransport(ctx, le, pkey, h, slowOpts, 9, ep, parseAddr, nil)
+		if err != nil {
+			return nil, err
+		}
+		return &dialerTpt{t}, nil
+	}
+	ctrl := tptc.NewController(le, tb.Bus, controller.NewInfo("verif/quic", semver.MustParse("0.0.1"), ""), localID, false, ctor)
+	rel, err := tb.Bus.AddController(ctx, ctrl, nil)
+	if err != nil {
+		vio.Fatal("%v", err)
+	}
+	defer rel()
+	if _, err := ctrl.GetTransport(ctx); err != nil {
+		vio.Fatal("%v", err)
+	}
+	nodeOpts = slowOpts
+	xid := vio.PeerID("quicnet/X")
+	stopSpin := make(chan struct{})
+	for k := 0; k < 6; k++ {
+		go func() {
+			for {
+				select {
+				case <-stopSpin:
+					return
+				default:
+					_ = ctrl.GetPeerLinks(xid)
+				}
+			}
+		}()
+	}
+	rounds, bad, closedSecond := 300, 0, 0
+	var details []string
+	for r := 0; r < rounds; r++ {
+		addr := fmt.Sprintf("addrR%d", r)
+		x1 := startNode(n, le, "X", addr)
+		d1, c1 := context.WithTimeout(ctx, 10*time.Second)
+		_, _, e1 := x1.tpt.DialPeer(d1, localID, "addrCtl")
+		c1()
+		x1.stop()
+		x2 := startNode(n, le, "X", addr)
+		d2, c2 := context.WithTimeout(ctx, 10*time.Second)
+		l2, _, e2 := x2.tpt.DialPeer(d2, localID, "addrCtl")
+		c2()
+		if e1 != nil || e2 != nil || l2 == nil {
+			x2.stop()
+			continue
+		}
+		// settle: the registry must name exactly one open link for this address and X's second link must still be open
+		okRound := false
+		for dl := time.Now().Add(3 * time.Second); time.Now().Before(dl); {
+			cnt, open := 0, 0
+			for _, l := range ctrl.GetPeerLinks(xid) {
+				if ra, ok := l.(interface{ RemoteAddr() net.Addr }); ok && ra.RemoteAddr().String() == addr {
+					cnt++
+					if c, ok := l.(interface{ GetContext() context.Context }); ok && c.GetContext().Err() == nil {
+						open++
+					}
+				}
+			}
+			if cnt == 1 && open == 1 {
+				okRound = true
+				break
+			}
+			time.Sleep(20 * time.Millisecond)
+		}
+		if !okRound {
+			bad++
+			cnt, open := 0, 0
+			for _, l := range ctrl.GetPeerLinks(xid) {
+				if ra, ok := l.(interface{ RemoteAddr() net.Addr }); ok && ra.RemoteAddr().String() == addr {
+					cnt++
+					if c, ok := l.(interface{ GetContext() context.Context }); ok && c.GetContext().Err() == nil {
+						open++
+					}
+				}
+			}
+			cur := "none"
+			if gt, err := ctrl.GetTransport(ctx); err == nil {
+				if l, ok := gt.(*dialerTpt).LookupLinkWithAddr(addr); ok && l != nil {
+					cur = fmt.Sprintf("closed=%v", l.GetContext().Err() != nil)
+				}
+			}
+			details = append(details, fmt.Sprintf("round %d: registered=%d open=%d transport-slot=%s", r, cnt, open, cur))
+		}
+		if c, ok := l2.(interface{ GetContext() context.Context }); ok && c.GetContext().Err() != nil {
+			closedSecond++
+		}
+		x2.stop()
+	}
+	close(stopSpin)
+	out.Emit(map[string]any{"e": "storm", "rounds": rounds, "registry_wrong": bad, "second_link_closed": closedSecond, "details": details})
+}
+
 func main() {
 	mode := flag.String("mode", "certs", "")
 	cases := flag.String("cases", "", "")
@@ -1070,6 +1178,8 @@ func main() {
 	out := vio.NewOut(*outp)
 	if *mode == "certs" {
 		runCerts(*cases, out)
+	} else if *mode == "storm" {
+		runStorm(out, logrus.NewEntry(lg))
 	} else if *mode == "flash" {
 		runFlash(out, logrus.NewEntry(lg))
 	} else if *mode == "redial" {
